@@ -26,7 +26,9 @@
 (*   Flat(t)       token sequence [s, g] of a tree (g = gap class)         *)
 (*   Toks(t, m)    tokens [s, sp] under layout m in {"canon","tight","wide"}*)
 (*   PrintToks(t)  == Toks(Par(t), "canon")   minimal-paren printing       *)
-(*   Parse(ts,ctx) precedence climbing parser over [s, sp] tokens          *)
+(*   ParseTop(ts,ctx) precedence climbing parser over [s, sp] tokens:      *)
+(*                 expressions (PExpr..) and statements (PStmt, PSimple,   *)
+(*                 PIf, PFor, PSwitch, PBlock)                             *)
 (*   Strip(t)      remove ParenExpr                                        *)
 (*   Spans(t)      preorder list of [k, f, l] first/last token per node    *)
 (*   Preorder(t), WalkEvents(t)   traversal order (with "nil" markers)     *)
@@ -254,7 +256,7 @@ SlotLvl(t, i) ==
     [] t.k = "KeyValueExpr" -> IF i = 1 THEN 1 ELSE 0
     [] t.k = "RangeExpr" -> 1                              \* parseRangeExpr: parseBinaryExpr
     [] t.k = "ComprehensionExpr" /\ i = 1 -> IF t.a = "{" THEN 1 ELSE 0
-    [] t.k = "ForPhrase" /\ i = 5 -> 1                     \* parseForPhraseCond: simple statement
+    [] t.k = "ForPhrase" /\ i = 5 -> IF t.a = "stmt" THEN 0 ELSE 1   \* comprehension: parseForPhraseCond (simple statement)
     [] t.k \in {"ExprStmt", "IncDecStmt"} -> 1             \* parseLHSList
     [] t.k = "SendStmt" /\ i = 1 -> 1
     [] t.k \in {"IfStmt", "ForStmt", "SwitchStmt"} /\ i = 2 -> 1
@@ -280,18 +282,23 @@ ExposedCL(t) == CASE t.k = "CompositeLit" -> Has(t, 1) /\ t.c[1].k \in {"Ident",
                   [] t.k \in {"BinaryExpr", "RangeExpr"} -> \E i \in 1..Len(t.c) : ExposedCL(t.c[i])
                   [] t.k \in {"UnaryExpr", "StarExpr", "ErrWrapExpr"} -> \E i \in 1..Len(t.c) : ExposedCL(t.c[i])
                   [] t.k \in {"SelectorExpr", "IndexExpr", "IndexListExpr", "SliceExpr", "TypeAssertExpr", "CallExpr"} -> ExposedCL(t.c[1])
+                  [] t.k \in {"AssignStmt", "ExprStmt", "IncDecStmt", "SendStmt", "List"} -> \E i \in 1..Len(t.c) : ExposedCL(t.c[i])
+                  [] t.k = "LambdaExpr" /\ t.a \notin {"r", "lr"} -> ExposedCL(t.c[2])
                   [] OTHER -> FALSE
 \* slots parsed with exprLev = -1
-ControlSlot(t, i) == (t.k = "ForPhrase" /\ i = 5)
+ControlSlot(t, i) == (t.k = "ForPhrase" /\ (i = 5 \/ (i = 3 /\ t.a = "stmt")))      \* a = "stmt": the phrase of a for statement
                      \/ (t.k \in {"IfStmt", "ForStmt", "SwitchStmt"} /\ i \in {1, 2})
                      \/ (t.k = "RangeStmt" /\ i = 3) \/ (t.k = "TypeSwitchStmt" /\ i \in {1, 2})
 \* slots parsed with lhs = true: "{" cannot start the operand there (parseOperand, case token.LBRACE)
-LhsSlot(t, i) == (t.k = "ForPhrase" /\ i = 5) \/ (t.k \in {"ExprStmt", "IncDecStmt"}) \/ (t.k = "SendStmt" /\ i = 1)
+LhsSlot(t, i) == (t.k = "ForPhrase" /\ i = 5 /\ t.a # "stmt") \/ (t.k \in {"ExprStmt", "IncDecStmt"}) \/ (t.k = "SendStmt" /\ i = 1)
                  \/ (t.k \in {"IfStmt", "ForStmt", "SwitchStmt"} /\ i \in {1, 2}) \/ (t.k = "List" /\ t.a = ",1")
 \* element slots (parseValue): a leading "{" is a complete untyped literal there, no postfix/binary may follow it
 ValueSlot(t, i) == (t.k = "CompositeLit" /\ i >= 2) \/ (t.k = "ComprehensionExpr" /\ t.a = "{" /\ i = 1) \/ t.k = "KeyValueExpr"
 \* NeedsParen(t, i, pc): child i of t (pc = that child already parenthesised inside) must be wrapped
-NeedsParen(t, i, pc) == /\ Real(t.c[i])
+StmtKinds == {"ExprStmt", "AssignStmt", "IncDecStmt", "SendStmt", "GoStmt", "DeferStmt", "ReturnStmt", "BranchStmt", "BlockStmt",
+              "IfStmt", "CaseClause", "SwitchStmt", "TypeSwitchStmt", "CommClause", "SelectStmt", "ForStmt", "RangeStmt",
+              "ForPhraseStmt", "LabeledStmt", "DeclStmt", "EmptyStmt", "ForPhrase", "KeyValueExpr", "RangeExpr", "ElemEllipsis"}
+NeedsParen(t, i, pc) == /\ Real(t.c[i]) /\ t.c[i].k \notin StmtKinds
                         /\ \/ Lvl(t.c[i]) < SlotLvl(t, i)
                            \/ (FollowedByColon(t, i) /\ ColonHazard(pc))
                            \/ (ControlSlot(t, i) /\ ExposedCL(pc))
@@ -384,7 +391,7 @@ RECURSIVE Size(_)
 Size(t) == (IF Real(t) THEN 1 ELSE 0) + (IF t.c = <<>> THEN 0 ELSE LET S[i \in 0..Len(t.c)] == IF i = 0 THEN 0 ELSE S[i - 1] + Size(t.c[i]) IN S[Len(t.c)])
 
 -----------------------------------------------------------------------------
-(* PARSER (parser/parser.go, expression level).  Tokens are [s, sp]         *)
+(* PARSER (parser/parser.go: expressions, then statements).  Tokens [s, sp]  *)
 (* (sp = white space precedes the token).  Every operator returns           *)
 (* [t |-> tree, p |-> index of the next token]; an error yields a BadExpr   *)
 (* and jumps behind the end, so the final tree differs from every           *)
@@ -645,12 +652,148 @@ PElement(ts, p, cx) ==
 PValue(ts, p, cx, keyOk) ==
   IF At(ts, p).s = "{" THEN PBrace(ts, p, cx, Nil) ELSE PExpr(ts, p, [Sub(cx) EXCEPT !.lhs = keyOk])
 
-\* Entry points.  "expr": parser.ParseExpr = parseRHS.  "stmt": parseStmt(allowCmd) for an expression
-\* statement: allowCmd survives only if the statement starts with an identifier or `map`.
+\* ---- statements (parser.go parseStmt / parseSimpleStmtEx / parseIfStmt / parseForStmt / parseSwitchStmt)
+AssignOps == {"=", ":=", "+=", "-=", "*=", "/=", "%=", "&=", "|=", "^=", "<<=", ">>=", "&^="}
+RhsCx(lev) == Cx(FALSE, FALSE, FALSE, FALSE, lev)
+RECURSIVE PStmt(_, _), PStmtList(_, _, _), PBlock(_, _), PSimple(_, _, _, _), PLhs(_, _, _, _), PIf(_, _), PFor(_, _),
+          PSwitch(_, _), PClauses(_, _, _)
+\* expectSemi: ";" is consumed, ")" "}" and the end of the text need none
+Semi(ts, r) == IF At(ts, r.p).s = ";" THEN R(r.t, r.p + 1)
+               ELSE IF At(ts, r.p).s \in {")", "}", "<EOF>"} THEN r ELSE Err(ts)
+\* parseLHSList: e {"," e} with lhs = true; only the first may be a command call
+PLhs(ts, p, cx, acc) ==
+  LET e == PExpr(ts, p, IF acc = <<>> THEN cx ELSE [cx EXCEPT !.cmd = FALSE]) IN
+  IF At(ts, e.p).s = "," THEN PLhs(ts, e.p + 1, cx, Append(acc, e.t)) ELSE [l |-> Append(acc, e.t), p |-> e.p]
+\* parseSimpleStmtEx; mode "basic" | "label" | "range".  In range mode the result may be the pseudo nodes
+\* RangeClause (k, v := range X) and ForIn (k, v in X [if cond]) that PFor turns into statements.
+PSimple(ts, p, cx, mode) ==
+  IF mode = "range" /\ At(ts, p).s = ":" THEN LET re == PRange(ts, p, Sub(cx)) IN R(N("RangeClause", "norange", <<Lst(",", <<>>), re.t>>), re.p)
+  ELSE
+  LET l == PLhs(ts, p, [cx EXCEPT !.lhs = TRUE], <<>>)
+      tk == At(ts, l.p).s
+      one == l.l[1]
+  IN
+  IF tk \in AssignOps THEN
+    IF mode = "range" /\ At(ts, l.p + 1).s = "range" /\ tk \in {":=", "="}
+    THEN LET x == PExpr(ts, l.p + 2, [RhsCx(cx.lev) EXCEPT !.rng = TRUE]) IN R(N("RangeClause", tk, <<Lst(",", l.l), x.t>>), x.p)
+    ELSE LET r == PExprs(ts, l.p + 1, RhsCx(cx.lev), <<>>) IN R(N("AssignStmt", tk, <<Lst(",1", l.l), Lst(",", r.l)>>), r.p)
+  ELSE IF mode = "range" /\ tk \in {"in", "<-"} THEN
+    LET x == PExpr(ts, l.p + 1, [RhsCx(cx.lev) EXCEPT !.rng = TRUE])
+        cnd == IF At(ts, x.p).s \in {"if", ","} THEN PExpr(ts, x.p + 1, RhsCx(cx.lev)) ELSE R(Nil, x.p)
+    IN R(N("ForIn", "", <<Lst(",", l.l), x.t, cnd.t>>), cnd.p)
+  ELSE IF Len(l.l) > 1 THEN Err(ts)
+  ELSE IF tk = ":" THEN
+    IF mode = "range" THEN
+         \* parseRangeExpr(first): the range continues after the first expression
+         LET hi == PBin(ts, l.p + 1, 1, Sub(cx))
+             e3 == IF At(ts, hi.p).s = ":" THEN PBin(ts, hi.p + 1, 1, Sub(cx)) ELSE R(Nil, hi.p)
+         IN R(N("RangeClause", "norange", <<Lst(",", <<>>), N("RangeExpr", "", <<one, hi.t, e3.t>>)>>), e3.p)
+    ELSE IF mode = "label" /\ one.k = "Ident" THEN
+         LET st == PStmt(ts, l.p + 1) IN R(N("LabeledStmt", "", <<one, st.t>>), st.p)
+    ELSE Err(ts)
+  ELSE IF tk = "<-" THEN
+    LET v == PExprs(ts, l.p + 1, RhsCx(cx.lev), <<>>) IN
+    IF At(ts, v.p).s = "..." /\ Len(v.l) = 1 THEN R(N("SendStmt", "...", <<one>> \o v.l), v.p + 1)
+    ELSE R(N("SendStmt", "", <<one>> \o v.l), v.p)
+  ELSE IF tk \in {"++", "--"} THEN R(N("IncDecStmt", tk, <<one>>), l.p + 1)
+  ELSE R(N("ExprStmt", "", <<one>>), l.p)
+PStmtList(ts, p, acc) ==
+  IF At(ts, p).s \in {"}", "case", "default", "<EOF>"} THEN [l |-> acc, p |-> p]
+  ELSE LET st == PStmt(ts, p) IN
+       IF st.t.k = "BadExpr" THEN [l |-> Append(acc, st.t), p |-> Len(ts) + 2] ELSE PStmtList(ts, st.p, Append(acc, st.t))
+PBlock(ts, p) ==
+  IF At(ts, p).s # "{" THEN Err(ts)
+  ELSE LET b == PStmtList(ts, p + 1, <<>>) IN
+       IF At(ts, b.p).s = "}" THEN R(N("BlockStmt", "", b.l), b.p + 1) ELSE Err(ts)
+\* the expression of a control clause: makeExpr
+CondOf(st) == IF st.k = "ExprStmt" THEN st.c[1] ELSE Bad
+PIf(ts, p) ==                      \* p at "if"; no expectSemi here (the caller decides)
+  LET hc == Cx(FALSE, FALSE, FALSE, FALSE, -1)
+      s1 == PSimple(ts, p + 1, hc, "basic")
+      two == At(ts, s1.p).s = ";"
+      s2 == IF two THEN PSimple(ts, s1.p + 1, hc, "basic") ELSE s1
+      init == IF two THEN s1.t ELSE Nil
+      body == PBlock(ts, s2.p)
+  IN IF At(ts, body.p).s = "else" THEN
+       LET e == IF At(ts, body.p + 1).s = "if" THEN PIf(ts, body.p + 1)
+                ELSE Semi(ts, PBlock(ts, body.p + 1))
+       IN R(N("IfStmt", "", <<init, CondOf(s2.t), body.t, e.t>>), e.p)
+     ELSE Semi(ts, R(N("IfStmt", "", <<init, CondOf(s2.t), body.t, Nil>>), body.p))
+PFor(ts, p) ==                     \* p at "for"
+  LET hc == Cx(FALSE, FALSE, FALSE, FALSE, -1) IN
+  IF At(ts, p + 1).s = "{" THEN LET b == PBlock(ts, p + 1) IN Semi(ts, R(N("ForStmt", "", <<Nil, Nil, Nil, b.t>>), b.p))
+  ELSE IF At(ts, p + 1).s = "range" THEN
+    LET x == PExpr(ts, p + 2, [hc EXCEPT !.rng = TRUE])
+        b == PBlock(ts, x.p)
+    IN Semi(ts, R(N("RangeStmt", "", <<Nil, Nil, x.t, b.t>>), b.p))
+  ELSE
+    LET s2 == IF At(ts, p + 1).s = ";" THEN R(Nil, p + 1) ELSE PSimple(ts, p + 1, hc, "range") IN
+    IF s2.t.k = "RangeClause" THEN
+      LET lh == s2.t.c[1].c
+          b == PBlock(ts, s2.p)
+      IN IF Len(lh) > 2 THEN Err(ts)
+         ELSE Semi(ts, R(N("RangeStmt", s2.t.a, <<(IF Len(lh) >= 1 THEN lh[1] ELSE Nil), (IF Len(lh) = 2 THEN lh[2] ELSE Nil),
+                                                 s2.t.c[2], b.t>>), b.p))
+    ELSE IF s2.t.k = "ForIn" THEN
+      LET lh == s2.t.c[1].c
+          b == PBlock(ts, s2.p)
+      IN IF Len(lh) \notin {1, 2} \/ \E i \in 1..Len(lh) : lh[i].k # "Ident" THEN Err(ts)
+         ELSE Semi(ts, R(N("ForPhraseStmt", "", <<N("ForPhrase", "stmt", <<(IF Len(lh) = 2 THEN lh[1] ELSE Nil), lh[Len(lh)],
+                                                     s2.t.c[2], Nil, s2.t.c[3]>>), b.t>>), b.p))
+    ELSE IF At(ts, s2.p).s = ";" THEN
+      LET c2 == IF At(ts, s2.p + 1).s = ";" THEN R(Nil, s2.p + 1) ELSE PSimple(ts, s2.p + 1, hc, "basic")
+          c3 == IF At(ts, c2.p).s # ";" THEN Err(ts)
+                ELSE IF At(ts, c2.p + 1).s = "{" THEN R(Nil, c2.p + 1) ELSE PSimple(ts, c2.p + 1, hc, "basic")
+          b == PBlock(ts, c3.p)
+      IN Semi(ts, R(N("ForStmt", "", <<s2.t, (IF c2.t.k = "Nil" THEN Nil ELSE CondOf(c2.t)), c3.t, b.t>>), b.p))
+    ELSE LET b == PBlock(ts, s2.p) IN Semi(ts, R(N("ForStmt", "", <<Nil, CondOf(s2.t), Nil, b.t>>), b.p))
+PClauses(ts, p, acc) ==
+  IF At(ts, p).s = "case" THEN
+    LET es == PExprs(ts, p + 1, RhsCx(0), <<>>) IN
+    IF At(ts, es.p).s # ":" THEN [l |-> Append(acc, Bad), p |-> Len(ts) + 2]
+    ELSE LET b == PStmtList(ts, es.p + 1, <<>>) IN
+         PClauses(ts, b.p, Append(acc, N("CaseClause", "case", <<Lst(",", es.l), Lst(";", b.l)>>)))
+  ELSE IF At(ts, p).s = "default" /\ At(ts, p + 1).s = ":" THEN
+    LET b == PStmtList(ts, p + 2, <<>>) IN
+    PClauses(ts, b.p, Append(acc, N("CaseClause", "default", <<Lst(",", <<>>), Lst(";", b.l)>>)))
+  ELSE [l |-> acc, p |-> p]
+PSwitch(ts, p) ==                  \* expression switch only
+  LET hc == Cx(FALSE, FALSE, FALSE, FALSE, -1)
+      a1 == IF At(ts, p + 1).s \in {"{", ";"} THEN R(Nil, p + 1) ELSE PSimple(ts, p + 1, hc, "basic")
+      two == At(ts, a1.p).s = ";"
+      a2 == IF ~two THEN a1 ELSE IF At(ts, a1.p + 1).s = "{" THEN R(Nil, a1.p + 1) ELSE PSimple(ts, a1.p + 1, hc, "basic")
+      init == IF two THEN a1.t ELSE Nil
+      tag == IF a2.t.k = "Nil" THEN Nil ELSE CondOf(a2.t)
+  IN IF At(ts, a2.p).s # "{" THEN Err(ts)
+     ELSE LET cl == PClauses(ts, a2.p + 1, <<>>) IN
+          IF At(ts, cl.p).s # "}" THEN Err(ts)
+          ELSE Semi(ts, R(N("SwitchStmt", "", <<init, tag, N("BlockStmt", "", cl.l)>>), cl.p + 1))
+\* parseStmt(allowCmd = true)
+PStmt(ts, p) ==
+  LET s == At(ts, p).s IN
+  CASE s \in {"go", "defer"} ->
+         LET x == PExpr(ts, p + 1, RhsCx(0)) IN
+         IF x.t.k = "CallExpr" THEN Semi(ts, R(N(IF s = "go" THEN "GoStmt" ELSE "DeferStmt", "", <<x.t>>), x.p)) ELSE Err(ts)
+    [] s = "return" ->
+         IF At(ts, p + 1).s \in {";", "}", "<EOF>"} THEN Semi(ts, R(N("ReturnStmt", "", <<>>), p + 1))
+         ELSE LET r == PExprs(ts, p + 1, RhsCx(0), <<>>) IN Semi(ts, R(N("ReturnStmt", "", r.l), r.p))
+    [] s \in {"break", "continue", "goto", "fallthrough"} ->
+         IF At(ts, p + 1).s \in {";", "<EOF>"} THEN Semi(ts, R(N("BranchStmt", s, <<>>), p + 1))
+         ELSE IF s # "fallthrough" /\ At(ts, p + 1).s \in IdentNames /\ At(ts, p + 2).s \in {";", "<EOF>"}
+         THEN Semi(ts, R(N("BranchStmt", s, <<Id(At(ts, p + 1).s)>>), p + 2)) ELSE Err(ts)
+    [] s = "{" -> Semi(ts, PBlock(ts, p))
+    [] s = "if" -> PIf(ts, p)
+    [] s = "for" -> PFor(ts, p)
+    [] s = "switch" -> PSwitch(ts, p)
+    [] s \in {"var", "const", "type", "select", ";"} -> Err(ts)          \* not modelled
+    [] OTHER ->
+         LET st == PSimple(ts, p, Cx(s \in IdentNames \cup {"map"}, FALSE, FALSE, TRUE, 0), "label") IN
+         IF st.t.k = "LabeledStmt" THEN st ELSE Semi(ts, st)
+
+\* Entry points.  "expr": parser.ParseExpr = parseRHS.  "stmt": one statement, parseStmt(allowCmd = true)
+\* (allowCmd survives only if the statement starts with an identifier or `map`).
 ParseTop(ts, ctx) ==
-  LET r == IF ctx = "expr" THEN PExpr(ts, 1, Cx(FALSE, FALSE, FALSE, FALSE, 0))
-           ELSE LET x == PExpr(ts, 1, Cx(At(ts, 1).s \in IdentNames \cup {"map"}, FALSE, FALSE, TRUE, 0)) IN
-                R(N("ExprStmt", "", <<x.t>>), x.p)
+  LET r == IF ctx = "expr" THEN PExpr(ts, 1, Cx(FALSE, FALSE, FALSE, FALSE, 0)) ELSE PStmt(ts, 1)
   IN IF r.p = Len(ts) + 1 THEN r.t ELSE Bad
 
 -----------------------------------------------------------------------------
@@ -748,16 +891,17 @@ FC == [ prec    |-> {"a", "b", "b||", "b&&", "b==", "b->", "b+", "b*", "u-", "u!
                      "cmpKV", "rng2", "rngLo", "rng3", "cl0", "ml0", "ew?", "lam1", "idx", "call1"},
         atoms   |-> {"a", "1", "s", "1.5", "raw", "cs", "pys", "2i", "3r", "chr", "unit", "env", "envb", "dom", "b+", "b*", "u-", "star", "ew!", "sel", "call1", "idx"},
         slidx   |-> {"a", "1", "sl1idx", "b+", "u-", "ew?"},      \* (no "*", "(", "[" may follow `[a][b]`: they would start a type)
+        stmt    |-> {"a", "f", "1", "b+", "b<", "u-", "u<-", "star", "ew!", "call1", "idx", "cl1", "cl0", "lam1"},  \* + SCtors
         cmd     |-> {"f", "a", "1", "s", "b-", "b*", "b&", "u-", "u&", "u<-", "u^", "u+", "u!", "star", "ew!", "sel", "call1", "idx",
                      "sl2", "cl1", "lam1", "lamP", "env", "cmd1", "cmd2", "cmd1e"} ]
-FCtx(f) == IF f = "cmd" THEN "stmt" ELSE IF f = "samples" THEN "file" ELSE "expr"
+FCtx(f) == IF f \in {"cmd", "stmt"} THEN "stmt" ELSE IF f = "samples" THEN "file" ELSE "expr"
 GenFoci == Foci \ {"samples"}
 AllFoci       == DOMAIN FC \cup {"samples"}   \* "samples": the fixed all-kinds sample trees (rendered and traversed only)
 DevFoci       == AllFoci
 SampleFoci    == {"samples"}
-QuickSizes    == [binary |-> 5, prec |-> 4, ops |-> 3, postfix |-> 3, lambda |-> 4, lit |-> 3, atoms |-> 3, slidx |-> 4, cmd |-> 3]
-ThoroughSizes == [binary |-> 7, prec |-> 5, ops |-> 4, postfix |-> 4, lambda |-> 5, lit |-> 4, atoms |-> 3, slidx |-> 5, cmd |-> 4]
-SmallSizes    == [binary |-> 5, prec |-> 3, ops |-> 3, postfix |-> 3, lambda |-> 3, lit |-> 3, atoms |-> 2, slidx |-> 3, cmd |-> 3]
+QuickSizes    == [binary |-> 5, prec |-> 4, ops |-> 3, postfix |-> 3, lambda |-> 4, lit |-> 3, atoms |-> 3, slidx |-> 4, stmt |-> 3, cmd |-> 3]
+ThoroughSizes == [binary |-> 7, prec |-> 5, ops |-> 4, postfix |-> 4, lambda |-> 5, lit |-> 4, atoms |-> 3, slidx |-> 5, stmt |-> 4, cmd |-> 4]
+SmallSizes    == [binary |-> 5, prec |-> 3, ops |-> 3, postfix |-> 3, lambda |-> 3, lit |-> 3, atoms |-> 2, slidx |-> 3, stmt |-> 3, cmd |-> 3]
 
 Gen(n, ctors, prev) ==
      (IF n = 1 THEN {AtomOf(c) : c \in ctors \cap Atoms} ELSE {})
@@ -888,7 +1032,56 @@ SampleDecls == {
                                                      N("ValueSpec", "", <<Lst(",", <<Bb, Id("c")>>), TId, Nil, Lst(",", <<>>)>>)>>),
                              FuncD("f", <<>>, Nil, Blk(<<XS(N("CallExpr", "cmd", <<Id("g"), A>>))>>))>>) }
 Samples == SampleExprs \cup SampleStmts \cup SampleDecls
+\* STATEMENTS (focus "stmt"): statement constructors over the expressions of the focus; size = 1 + expression nodes
+EBlk == N("BlockStmt", "", <<>>)
+SXS(e) == N("ExprStmt", "", <<e>>)
+SAsg(tok, l, r) == N("AssignStmt", tok, <<Lst(",1", l), Lst(",", r)>>)
+SIn(x, cond) == N("ForPhraseStmt", "", <<N("ForPhrase", "stmt", <<Nil, Id("x"), x, Nil, cond>>), EBlk>>)
+SAr1 == {"s:x", "s:def", "s:inc", "s:ret1", "s:go", "s:if", "s:for", "s:rng", "s:rng0", "s:in", "s:blk", "s:lbl", "s:ifelse"}
+SAr2 == {"s:asg", "s:add", "s:asg2", "s:send", "s:ret2", "s:ifinit", "s:inif", "s:sw", "s:for3", "s:nest", "s:blk2"}
+SMk(c, k) ==
+  CASE c = "s:x"    -> SXS(k[1])
+    [] c = "s:def"  -> SAsg(":=", <<Id("a")>>, k)
+    [] c = "s:inc"  -> N("IncDecStmt", "++", k)
+    [] c = "s:ret1" -> N("ReturnStmt", "", k)
+    [] c = "s:go"   -> N("GoStmt", "", <<N("CallExpr", "", <<Id("f"), k[1]>>)>>)
+    [] c = "s:if"   -> N("IfStmt", "", <<Nil, k[1], EBlk, Nil>>)
+    [] c = "s:ifelse" -> N("IfStmt", "", <<Nil, k[1], EBlk, N("IfStmt", "", <<Nil, Id("b"), EBlk, N("BlockStmt", "", <<N("BranchStmt", "break", <<>>)>>)>>)>>)
+    [] c = "s:for"  -> N("ForStmt", "", <<Nil, k[1], Nil, EBlk>>)
+    [] c = "s:rng"  -> N("RangeStmt", ":=", <<Id("k"), Id("v"), k[1], EBlk>>)
+    [] c = "s:rng0" -> N("RangeStmt", "", <<Nil, Nil, k[1], EBlk>>)
+    [] c = "s:in"   -> SIn(k[1], Nil)
+    [] c = "s:blk"  -> N("BlockStmt", "", <<SXS(N("CallExpr", "", <<Id("f"), k[1]>>))>>)
+    [] c = "s:lbl"  -> N("LabeledStmt", "", <<Id("L"), N("ForStmt", "", <<Nil, k[1], Nil, N("BlockStmt", "", <<N("BranchStmt", "continue", <<Id("L")>>)>>)>>)>>)
+    [] c = "s:asg"  -> SAsg("=", <<k[1]>>, <<k[2]>>)
+    [] c = "s:add"  -> SAsg("+=", <<k[1]>>, <<k[2]>>)
+    [] c = "s:asg2" -> SAsg("=", <<Id("a"), k[1]>>, <<k[2], Lit("1")>>)
+    [] c = "s:send" -> N("SendStmt", "", k)
+    [] c = "s:ret2" -> N("ReturnStmt", "", k)
+    [] c = "s:ifinit" -> N("IfStmt", "", <<SAsg(":=", <<Id("a")>>, <<k[1]>>), k[2], EBlk, Nil>>)
+    [] c = "s:inif" -> SIn(k[1], k[2])
+    [] c = "s:sw"   -> N("SwitchStmt", "", <<Nil, k[1], N("BlockStmt", "", <<N("CaseClause", "case", <<Lst(",", <<k[2], Lit("1")>>), Lst(";", <<N("BranchStmt", "fallthrough", <<>>)>>)>>),
+                                                                               N("CaseClause", "default", <<Lst(",", <<>>), Lst(";", <<>>)>>)>>)>>)
+    [] c = "s:for3" -> N("ForStmt", "", <<SAsg(":=", <<Id("a")>>, <<k[1]>>), k[2], N("IncDecStmt", "++", <<Id("a")>>), EBlk>>)
+    [] c = "s:nest" -> N("IfStmt", "", <<Nil, k[1], N("BlockStmt", "", <<N("ForStmt", "", <<Nil, k[2], Nil, EBlk>>), N("ReturnStmt", "", <<>>)>>), Nil>>)
+    [] c = "s:blk2" -> N("BlockStmt", "", <<SXS(N("CallExpr", "", <<Id("f"), k[1]>>)), N("DeferStmt", "", <<N("CallExpr", "", <<Id("f"), k[2]>>)>>)>>)
+RECURSIVE StmtOK(_)
+\* well-formed for the statement model: expression statements are no bare lambdas / literals, and no composite literal
+\* stands exposed in the simple statement of a control clause (it cannot be parenthesised as a whole)
+StmtOK(t) == /\ (t.k = "ExprStmt" => t.c[1].k \notin {"LambdaExpr", "CompositeLit", "SliceLit"})
+             \* no lambda as condition, tag, range operand, assignment target or operand of ++ / <- (meaningless, and
+             \* printer.controlClause strips a ParenExpr around it)
+             /\ \A i \in 1..Len(t.c) : ((t.k \in StmtKinds \/ t.k = "List") /\ (SlotLvl(t, i) = 1 \/ ControlSlot(t, i)))
+                                          => t.c[i].k # "LambdaExpr"
+             /\ \A i \in 1..Len(t.c) : (ControlSlot(t, i) /\ t.c[i].k \in {"AssignStmt", "ExprStmt", "IncDecStmt", "SendStmt"})
+                                          => ~ExposedCL(Par(t.c[i]))
+             /\ \A i \in 1..Len(t.c) : StmtOK(t.c[i])
+StmtTrees(f) ==
+  UNION { UNION {{SMk(c, <<x>>) : x \in ES(f)[n - 1]} : c \in SAr1}
+          \cup (IF n < 3 THEN {} ELSE UNION {UNION {{SMk(c, <<x, y>>) : x \in ES(f)[i], y \in ES(f)[n - 1 - i]} : i \in 1..(n - 2)} : c \in SAr2})
+        : n \in 2..Sizes[f] }
 Universe(f) == IF f = "samples" THEN Samples
+               ELSE IF f = "stmt" THEN {t \in StmtTrees(f) : StmtOK(t)}
                ELSE IF FCtx(f) = "expr" THEN UpTo(f)
                ELSE {N("ExprStmt", "", <<e>>) : e \in {x \in UpTo(f) : x.k \notin {"LambdaExpr", "CompositeLit", "SliceLit"}} \cup CmdTrees(f)}
 
